@@ -65,19 +65,43 @@ Qed.
 Theorem page_preimage_eq_spec : forall pagesz page, page_preimage pagesz page 0 = pe_spec_page_preimage pagesz page.
 Proof. intros. unfold page_preimage, pe_spec_page_preimage, pe_needzero. now rewrite Z.sub_0_r. Qed.
 
+(* ------------------------------------------------------------------ PE checksum *)
+(* 8. for every split into writes of which only the last may be odd (io.Copy from a regular file), with an even CheckSum
+      field offset (or none), the hasher computes the published algorithm — whatever boundary falls on the field *)
+Theorem cksum_split_indep : forall pe_start ds,
+  pe_start <= 0 \/ pe_start mod 2 = 0 -> all_bytes (concat ds) = true -> ck_split_ok ds = true ->
+  ck_run pe_start ds = Ok (spec_cksum pe_start (concat ds)).
+Proof.
+  intros pe_start ds Hp Hb Hok. apply C09.Proofs.ck_run_spec; [exact Hp| |exact Hok].
+  apply all_bytes_forall in Hb. exact Hb.
+Qed.
+(* an odd write that is not the last is refused, never mis-summed *)
+Theorem cksum_odd_mid_refused : forall h d1 d2 h1,
+  ck_write h d1 = Ok h1 -> zlen d1 mod 2 = 1 -> ck_write h1 d2 = Err E_ODD.
+Proof.
+  intros h d1 d2 h1 H Hodd. unfold ck_write in *. destruct (ck_odd_err_cond (ck_odd h)); [discriminate|].
+  inversion H; subst. cbn [ck_odd]. unfold ck_odd_err_cond, ck_write_odd_cond.
+  rewrite Z.rem_mod_nonneg by (pose proof (zlen_nonneg d1); lia). rewrite Hodd. cbn. now rewrite orb_true_r.
+Qed.
+(* with an ODD field offset (odd e_lfanew) the field is never zeroed: the full statement fails there. Such images are
+   outside the PE format (NT headers are 4-byte aligned); witness kept for the record *)
+Theorem cksum_odd_field_refuted : exists pe_start data,
+  all_bytes data = true /\ ck_run pe_start [data] <> Ok (spec_cksum pe_start data).
+Proof. exists 1, (repeat 1 100%nat). split; [reflexivity|]. vm_compute. discriminate. Qed.
+
 (* ------------------------------------------------------------------ tar framing of zip uploads *)
-(* 8. what ReadZipTar hands the server-side signer is the complete zip and its central directory *)
+(* 9. what ReadZipTar hands the server-side signer is the complete zip and its central directory *)
 Theorem zip_tar_roundtrip : forall dirloc f, 0 <= dirloc <= zlen f ->
   read_zip_tar (zip_to_tar dirloc f) = Ok (zdrop dirloc f, f).
 Proof. exact C09.Proofs.zip_tar_roundtrip. Qed.
 
 (* ------------------------------------------------------------------ compression negotiation *)
-(* 9. selectEncoding = "snappy over gzip over nothing, unknown tokens ignored" *)
+(* 10. selectEncoding = "snappy over gzip over nothing, unknown tokens ignored" *)
 Theorem select_encoding_eq_spec : forall items, select_encoding items = spec_select items.
 Proof. exact C09.Proofs.select_encoding_spec. Qed.
 
 (* ------------------------------------------------------------------ client transport *)
-(* 10. every failover history: the attempts form a good trace (servers in order, moving on only after a transient failure,
+(* 11. every failover history: the attempts form a good trace (servers in order, moving on only after a transient failure,
        one restart without compression after a 406, accepted response below 300), and there are at most 2·|servers| *)
 Theorem request_replay : forall nbases retries enc script, 0 < nbases ->
   exists t res, do_request nbases retries enc script = (t, res) /\
@@ -89,7 +113,7 @@ Proof. exact C09.Proofs.good_trace_accept. Qed.
 Theorem no_encoding_after_fallback : forall L nb i t res,
   good_trace L nb i false t res -> Forall (fun ao => a_enc (fst ao) = false) t.
 Proof. exact C09.Proofs.good_trace_noenc. Qed.
-(* 11. whatever attempt is accepted, the server decodes exactly the client-side transform's bytes, provided the codec
+(* 12. whatever attempt is accepted, the server decodes exactly the client-side transform's bytes, provided the codec
        round-trips (library assumption, premise of the theorem; checked on every harness case) *)
 Theorem transport_invariant : forall (compress decompress : bytes -> bytes -> bytes),
   (forall e x, decompress e (compress e x) = x) ->
@@ -105,6 +129,12 @@ Proof. reflexivity. Qed.
 Example blockmap_example :
   map zlen (addfile_blocks (mkRd (repeat 7 (Z.to_nat 70000)) [1; 65535; 3; 100000])) = [65536; 4464].
 Proof. vm_compute. reflexivity. Qed.
+Example cksum_straddle_example :
+  (* the field (offset 90) straddles the write boundary at 92, and lies exactly on the boundary at 90 *)
+  let data := map (fun n => Z.of_nat n mod 251) (seq 0 120) in
+  ck_run 2 [ztake 92 data; zdrop 92 data] = Ok (spec_cksum 2 data) /\
+  ck_run 2 [ztake 90 data; zdrop 90 data] = Ok (spec_cksum 2 data) /\ ck_run 2 [data] = Ok (spec_cksum 2 data).
+Proof. vm_compute. repeat split. Qed.
 Example failover_example :
   do_request 3 0 true [OStatus 503; OStatus 406; OConnTemp; OStatus 200] =
   ([(mkAtt 0 true, OStatus 503); (mkAtt 1 true, OStatus 406); (mkAtt 0 false, OConnTemp); (mkAtt 1 false, OStatus 200)],
